@@ -1,4 +1,5 @@
 import HcipyVerif.Model.FftWeights
+import HcipyVerif.Model.Nft
 import HcipyVerif.Model.Proto
 import HcipyVerif.Model.FftGrid
 import HcipyVerif.Model.FftIndex
@@ -45,6 +46,10 @@ Line-protocol front end of the C01 model.
 * `impnw std|emu [N…] [M…] [Mo…] [δ…] [z…] [dT…] [s…] [w…] [rel…] [j…]` — `fastForwardNW`
   (`Model/FftWeights.lean`): forward on a grid with per-point weights; `[w…]` as for `impn` (product
   = the cell area kept in `shift_input`), `[rel…]` the `relative_weights` array, row-major.
+* `nft fwd|bwd mat|fly [x…];[y…];… [u…];[v…];… [w…] j` — `Model/Nft.lean`: NaiveFourierTransform on
+  unstructured points (one coordinate list per dimension for the input and for the output points),
+  precomputed-matrix path or on-the-fly path, per-point weights of the source grid (`bwd`: output
+  weights already divided by `(2π)^ndim`), unit impulse at `j`; all samples.
 * `load shifts N M [buf…] [f…]` — `loadArray` (`Model/FftState.lean`): the persistent internal array
   after the first statements of `forward` from previous contents `buf` (then `ifftshift` when
   `shifts = 1`, as the code rebinds `internal_array`); exact rationals.
@@ -304,6 +309,17 @@ def step (st : St) : List String → St × String
           fastForwardNW PSum.turns PSum.rad gs rel (impulseN js) ks
         (st, "ok " ++ showPSums outs)
     | _, _, _, _, _, _, _, _, _, _ => (st, "bad-op")
+  | ["nft", dir, path, xss, uss, ws, j] =>
+    match parseRatLists? xss, parseRatLists? uss, parseRatList? ws, parseNat? j with
+    | some xs, some us, some w, some j =>
+      if (dir != "fwd" && dir != "bwd") || (path != "mat" && path != "fly") then (st, "bad-op") else
+      let n := (xs.headD []).length
+      let m := (us.headD []).length
+      let fwd := dir == "fwd"
+      if xs.isEmpty || xs.length != us.length || xs.any (·.length != n) || us.any (·.length != m) ||
+          w.length != (if fwd then n else m) || j ≥ (if fwd then n else m) then (st, "err value") else
+      (st, "ok " ++ showPSums (nftImpulse fwd (path == "mat") xs us w j))
+    | _, _, _, _ => (st, "bad-op")
   | ["load", sh, N, M, bufs, fs] =>
     match parseBool? sh, parseNat? N, parseNat? M, parseRatList? bufs, parseRatList? fs with
     | some sh, some N, some M, some buf, some f =>
